@@ -221,10 +221,8 @@ class Reader(BaseValidator):
         if isinstance(source_data_stream_or_path, str):
             source_path = source_data_stream_or_path
         else:
-            try:
-                source_path = source_data_stream_or_path.name
-            except AttributeError:
-                source_path = "<io>"
+            # NOTE: Let the location figure out how to call the stream, it might have no (proper) name.
+            source_path = source_data_stream_or_path
         self._location = errors.Location(source_path, has_cell=True)
         self._source_data_stream_or_path = source_data_stream_or_path
         self._on_error = on_error
